@@ -37,7 +37,7 @@ func init() {
 var c07Kinds = []string{
 	"panic-bind", "panic-search", "panic-modify", "panic-add", "panic-delete", "panic-extended",
 	"panic-starttls", "panic-unbind", "panic-default",
-	"reset-midframe", "truncated-fin", "malformed", "former-decode-panic", "stop-reading-then-reset", "stalled-reader-held", "panic-storm",
+	"reset-midframe", "truncated-fin", "malformed", "former-decode-panic", "stop-reading-then-reset", "stalled-reader-held", "storm-of-panics",
 }
 
 var c07Placements = []string{"alone", "after-requests", "siblings-running", "double", "pipelined-after"}
@@ -255,7 +255,7 @@ func c07Inject(c *Ctx, srv *Srv, cs c07Case, r *Rand) {
 		cl.Send(pick(r, inputs))
 		cl.C.SetReadDeadline(time.Now().Add(300 * time.Millisecond))
 		sber.ReadFrame(cl.br)
-	case cs.Kind == "panic-storm":
+	case cs.Kind == "storm-of-panics":
 		// hundreds of recovered handler panics, on this connection and on others: whatever a panic leaks must not add up
 		n := 80
 		if cs.Place == "alone" {
